@@ -151,7 +151,8 @@ pub fn check<I: Inputs>(vt: &'static Vt<I>, ctx: &Ctx) -> DeclReport {
                 }
                 Op::DisplayFromStr => {
                     let Some(df) = vt.display else { continue };
-                    let Ok(Some(text)) = no_panic(|| df(cur.clone())) else { continue };
+                    let Ok(Some(texts)) = no_panic(|| df(cur.clone())) else { continue };
+                    let Some(text) = texts.into_iter().next() else { continue };
                     // applicable only if the inner type itself survives its own Display/FromStr
                     if I::KIND != Kind::Str {
                         match I::parse_(&text) {
